@@ -207,6 +207,13 @@ def classes_of(spec):
     return sorted(cl)
 
 
+def _as_reported(sched):
+    """the schedule as delivered: with the horizon reported by build_solution when the problem declares none"""
+    if sched.get("reported_horizon") is not None and sched["reported_horizon"] != sched["horizon"]:
+        return dict(sched, horizon=sched["reported_horizon"])
+    return sched
+
+
 def delivered(sess, spec, sched, model, ctx):
     """buffer profiles and indicator values as delivered by build_solution(model); falls back to the
     raw model values when there is nothing to deliver or no model."""
@@ -223,6 +230,10 @@ def delivered(sess, spec, sched, model, ctx):
             ctx.event("build_solution_raised:" + type(exc).__name__)
         return None, rep_ind
     rep_buf = {bn: {"levels": list(b.level), "times": list(b.level_change_times)} for bn, b in sol.buffers.items()}
+    if spec.get("horizon") is None and spec.get("indicators") and isinstance(getattr(sol, "horizon", None), int):
+        # a problem without a declared horizon: the delivered values are judged on the delivered schedule, whose horizon
+        # is the one reported with the solution
+        sched["reported_horizon"] = sol.horizon
     names = {}
     for iid, obj in sess.h.indicators.items():
         names.setdefault(obj.name, []).append(iid)
@@ -248,7 +259,7 @@ def soundness_case(ctx, case, families, check_name, enum_cap_small=120, extra_nt
         n += 1
         ctx.evaluation()
         rep_buf, rep_ind = delivered(ex.sess, spec, sched, model, ctx)
-        vd = ref.judge(spec, sched, reported_buffers=rep_buf, reported_indicators=rep_ind)
+        vd = ref.judge(spec, _as_reported(sched), reported_buffers=rep_buf, reported_indicators=rep_ind)
         ctx.event("verdict_" + vd.status())
         if ctx.collect:
             for f, r, e, _, d in vd.bad():
@@ -290,7 +301,7 @@ def replay_soundness(record, families):
     if st != "sat":
         return False, f"recorded schedule is no longer admitted ({st})"
     rep_buf, rep_ind = delivered(sess, spec, sched, m, None)
-    vd = ref.judge(spec, sched, reported_buffers=rep_buf, reported_indicators=rep_ind)
+    vd = ref.judge(spec, _as_reported(sched), reported_buffers=rep_buf, reported_indicators=rep_ind)
     bad = vd.bad(families)
     if bad:
         return True, summarize_bad(bad)
